@@ -5,9 +5,10 @@ import pvlib
 CHILD = os.path.join(pvlib.VERIF, "harness", "children", "child.py")
 
 
-def run_traced(ctx, argv, stdin, child_args, child_fn="id", timeout=60, log_child=None, nice=None, pauses=None, pause_s=0.12):
+def run_traced(ctx, argv, stdin, child_args, child_fn="id", timeout=60, log_child=None, nice=None, pauses=None, pause_s=0.12, linger_s=0):
     """returns (status, stdout, stderr, trace_lines).  pauses: byte offsets of stdin at which the feeder stalls for
-    pause_s seconds (the upstream producer of a pipeline pausing), so that the wrapper's threads catch up with the input"""
+    pause_s seconds (the upstream producer of a pipeline pausing), so that the wrapper's threads catch up with the input;
+    linger_s: after the last byte, stdin stays open for that long before end of input"""
     rfd, wfd = os.pipe()
     env = pvlib.san_env({"PREPROCESS_VERIF_TRACE_FD": str(wfd), "PV_CHILD_FN": child_fn})
     child = [sys.executable, CHILD] + (["log", log_child] if log_child else []) + child_args
@@ -22,7 +23,7 @@ def run_traced(ctx, argv, stdin, child_args, child_fn="id", timeout=60, log_chil
             trace.append(f.read())
     t = threading.Thread(target=rd)
     t.start()
-    if pauses:
+    if pauses or linger_s:
         import time
         bufs = {"o": [], "e": []}
 
@@ -34,11 +35,13 @@ def run_traced(ctx, argv, stdin, child_args, child_fn="id", timeout=60, log_chil
         def feed():
             pos = 0
             try:
-                for off in sorted(set(o for o in pauses if 0 < o < len(stdin))) + [len(stdin)]:
+                for off in sorted(set(o for o in (pauses or []) if 0 < o < len(stdin))) + [len(stdin)]:
                     p.stdin.write(stdin[pos:off]); p.stdin.flush()
                     pos = off
                     if off < len(stdin):
                         time.sleep(pause_s)
+                if linger_s:
+                    time.sleep(linger_s)
             except (BrokenPipeError, OSError):
                 pass
             try:
